@@ -74,7 +74,9 @@ static std::string oracle(Cfg const& c, Result const& r, long double* objOut, lo
 		}
 		for(std::size_t i = 0; i != n; ++i) sumc += r.alpha[i];
 		long double primal = 0.5L * quad + c.p1 * hinge;
-		long double tol = 1e-9L * (1 + scale + c.p1 * P);
+		// the solver's matrix holds the differences of kernel values rounded to the cache type: exact for integer points with
+		// the linear kernel and for the double cache, float-accurate otherwise
+		long double tol = ((c.dbl || c.kern == "lin") ? 1e-9L : 1e-6L) * (1 + scale + c.p1 * P + c.p1 * hinge);
 		*objOut = primal; *widthOut = c.p1 * P;
 		if(std::fabs(sumc) > tol) os << " !oracle ranking-coefficients-sum(" << (double)sumc << ")";
 		if((long double)r.value > primal + tol) os << " !oracle weak-duality(" << std::setprecision(17) << r.value << " > " << (double)primal << ")";
